@@ -4,6 +4,7 @@
 mod c06;
 mod c07;
 mod c08;
+mod c16;
 mod enc;
 mod out;
 mod rng;
@@ -53,6 +54,7 @@ fn main() {
         "C06" => c06::run(&a),
         "C07" => c07::run(&a),
         "C08" => c08::run(&a),
+        "C16" => c16::run(&a),
         _ => {
             eprintln!("no harness for {}", prop);
             std::process::exit(2);
